@@ -3,6 +3,7 @@ package checks
 import (
 	"encoding/json"
 	"fmt"
+	"math/rand"
 	"strings"
 
 	"github.com/jsightapi/jsight-schema-core/notations/jschema"
@@ -113,8 +114,120 @@ func smProject(cs smCase) (root string, types map[string]string) {
 	case "refor":
 		root = cs.V + ` // {or: ["@t", "boolean"]}`
 		types["@t"] = withAnn(cs.TV, ann)
+	case "reftor":
+		root = cs.V + ` // {type: "@t"}`
+		types["@t"] = cs.TV + " // {or: [" + smAnnotation(cs.Rules, true) + ", {type: \"boolean\"}]}"
 	}
 	return
+}
+
+// smPair composes two finished projects as independent parts of one root object (SchemaModel!ComposeExpect).
+type smPair struct {
+	A, B   smCase
+	Expect string
+}
+
+func smPartOf(cs smCase) (string, map[string]string) {
+	if len(cs.Extra) > 0 {
+		t := map[string]string{}
+		if cs.Extra["type"] != "" {
+			t["@t"] = cs.Extra["type"]
+		}
+		return cs.Extra["root"], t
+	}
+	return smProject(cs)
+}
+
+func smPairProject(p smPair) (string, map[string]string) {
+	types := map[string]string{}
+	var sb strings.Builder
+	sb.WriteString("{\n")
+	for i, cs := range []smCase{p.A, p.B} {
+		root, ts := smPartOf(cs)
+		tn := fmt.Sprintf("@t%d", i+1)
+		root = strings.ReplaceAll(root, `"@t"`, `"`+tn+`"`)
+		for _, t := range ts {
+			types[tn] = t
+		}
+		sep := ","
+		if i == 1 {
+			sep = ""
+		}
+		root = strings.ReplaceAll(root, "\n", "\n  ")
+		if k := strings.Index(root, " // "); k >= 0 && !strings.Contains(root, "\n") {
+			root = root[:k] + sep + root[k:]
+		} else {
+			root += sep
+		}
+		fmt.Fprintf(&sb, "  \"p%d\": %s\n", i+1, root)
+	}
+	sb.WriteString("}")
+	return sb.String(), types
+}
+
+func smPairEval(c *core.Ctx, p smPair) []core.Finding {
+	return core.Guard("schema.Check", func() []core.Finding {
+		root, types := smPairProject(p)
+		s := jschema.New("root", root)
+		for _, n := range []string{"@t1", "@t2"} {
+			if t, ok := types[n]; ok {
+				if err := s.AddType(n, jschema.New(n, t)); err != nil {
+					if c != nil {
+						c.Inconclusive("pair-addtype-failed:" + fmt.Sprint(errCode(err)))
+					}
+					return nil
+				}
+			}
+		}
+		err := s.Check()
+		code := errCode(err)
+		show := fmt.Sprintf("%q", root)
+		for n, x := range types {
+			show += fmt.Sprintf("  TYPE %s: %q", n, x)
+		}
+		class := "pair:" + p.A.Skel + "+" + p.B.Skel
+		switch {
+		case p.Expect == "reject" && err == nil:
+			return []core.Finding{{Class: "check:accepts-violating-example:" + class, What: "one of the two parts breaks its own rules but Check() = nil: " + show}}
+		case p.Expect == "accept" && err != nil && valueReasonCodes[code]:
+			return []core.Finding{{Class: "check:rejects-satisfying-example:" + class, What: fmt.Sprintf("both parts satisfy their rules but Check() = %v: %s", firstLineOf(err), show)}}
+		case p.Expect == "accept" && err != nil:
+			if c != nil {
+				c.Inconclusive(fmt.Sprintf("structural-code-%d:%s", code, class))
+			}
+		}
+		return nil
+	})
+}
+
+// smPairs draws pairs of finished projects; a third of them from the skeletons that create internal types.
+func smPairs(cases []smCase, n int, seed int64) []smPair {
+	rng := rand.New(rand.NewSource(seed))
+	var inner []int
+	for i, cs := range cases {
+		if cs.Skel == "or" || cs.Skel == "refor" || cs.Skel == "reftor" || cs.Skel == "or2" || cs.Skel == "orvocab" {
+			inner = append(inner, i)
+		}
+	}
+	var out []smPair
+	pick := func(k int) smCase {
+		if k%3 != 2 && len(inner) > 0 {
+			return cases[inner[rng.Intn(len(inner))]]
+		}
+		return cases[rng.Intn(len(cases))]
+	}
+	for k := 0; len(out) < n && k < 4*n; k++ {
+		a, b := pick(k), pick(k+1)
+		if a.Expect == "unknown" || b.Expect == "unknown" {
+			continue
+		}
+		e := "accept"
+		if a.Expect != "accept" || b.Expect != "accept" {
+			e = "reject"
+		}
+		out = append(out, smPair{A: a, B: b, Expect: e})
+	}
+	return out
 }
 
 func smClass(cs smCase, what string) string {
@@ -168,7 +281,7 @@ func runC01(c *core.Ctx) error {
 	files := map[string][]byte{}
 	if c.Thorough() {
 		cfg = "SchemaModel_thorough.cfg"
-		files[cfg] = []byte("SPECIFICATION Spec\nCONSTANTS\n  Skeletons = {\"root\",\"prop\",\"item\",\"or\",\"ref\",\"refor\"}\n  Bounds = {2, 3, 4, 6, 9, 10, 14, 17}\n  Kinds = {\"num\",\"str\",\"arr\"}\nINVARIANTS TypeOK NoRulesAccepted Emit\nCHECK_DEADLOCK FALSE\n")
+		files[cfg] = []byte("SPECIFICATION Spec\nCONSTANTS\n  Skeletons = {\"root\",\"prop\",\"item\",\"or\",\"ref\",\"refor\",\"reftor\"}\n  Bounds = {2, 3, 4, 6, 9, 10, 14, 17}\n  Kinds = {\"num\",\"str\",\"arr\"}\nINVARIANTS TypeOK NoRulesAccepted Emit\nCHECK_DEADLOCK FALSE\n")
 	}
 	var cases []smCase
 	res, err := tlc.Run(tlc.Opts{Module: "SchemaModel", Cfg: cfg, Workers: 16, Files: files, Timeout: 0, HeapGB: 12, OnLine: func(l string) {
@@ -208,6 +321,12 @@ func runC01(c *core.Ctx) error {
 			c.Report(cs, smEval(c, cs))
 		}
 	})
+	pairs := smPairs(cases, c.Pick(80000, 600000), c.Seed)
+	core.ParallelFor(len(pairs), func(i int) {
+		c.CountEval(1)
+		c.Report(pairs[i], smPairEval(c, pairs[i]))
+	})
+	c.Set("composed_pairs", len(pairs))
 	for _, cs := range cases {
 		if len(cs.Rules) > 0 || len(cs.Extra) > 0 {
 			b, _ := json.Marshal(cs)
@@ -232,6 +351,10 @@ func runC01(c *core.Ctx) error {
 func init() {
 	register(&core.Check{ID: "C01", Level: "model_checking", Run: runC01,
 		Replay: func(c *core.Ctx, raw json.RawMessage) ([]core.Finding, error) {
+			var pr smPair
+			if json.Unmarshal(raw, &pr) == nil && pr.Expect != "" && (pr.A.Skel != "" || len(pr.A.Extra) > 0) {
+				return smPairEval(nil, pr), nil
+			}
 			var cs smCase
 			if err := json.Unmarshal(raw, &cs); err != nil {
 				return nil, err
